@@ -21,7 +21,9 @@ def main():
     patch = os.path.join(out, "patch%s.diff" % n)
     res = {"worktree": wt, "patch": patch, "checks": {}}
     sh("git checkout -- . && git clean -fdq -e _b", cwd=wt)
-    demo = next((os.path.join(out, f) for f in sorted(os.listdir(out)) if re.match(r"demo%s\.(c|sh|py)$" % n, f)), None)
+    cands = [f for f in sorted(os.listdir(out)) if re.match(r"demo%s\.(c|sh|py)$" % n, f)]
+    cands.sort(key=lambda f: 0 if f.endswith((".sh", ".py")) else 1)      # a script, when present, drives the C file
+    demo = os.path.join(out, cands[0]) if cands else None
     def build():
         rc, o = sh("rm -rf _b && cmake -S . -B _b -G Ninja >/dev/null && cmake --build _b 2>&1 | tail -3", cwd=wt)
         return rc
@@ -30,14 +32,14 @@ def main():
             return None
         if demo.endswith(".c"):
             txt = open(demo).read()
-            lines = txt.splitlines()[:25]
+            lines = txt.splitlines()[:45]
             cmd = None
             for i, l in enumerate(lines):
                 if re.search(r"\b(gcc|cc|clang)\s", l) and "demo%s" % n in "".join(lines[i:i + 3]):
                     parts = []
                     j = i
                     while j < len(lines):
-                        t = re.sub(r"^[\s/*]+", "", lines[j]).rstrip()
+                        t = re.sub(r"^\s*(?:/\*+|\*+)?\s*", "", lines[j]).rstrip()
                         cont = t.endswith("\\")
                         parts.append(t.rstrip("\\").strip())
                         j += 1
